@@ -260,8 +260,63 @@ Definition template_audit : bool :=
 Example C13_template_audit : template_audit = true.
 Proof. vm_compute. reflexivity. Qed.
 
+(** A second finite audit on the same skeleton family: names that are looked up in the SCOPE of the use site.
+    An identifier of the closed vocabulary that names a module, type, trait, variant, function or macro is only
+    harmless when it continues an absolute path (`:: core :: cmp :: Ordering :: Equal`, `:: core :: primitive :: bool`):
+    written on its own it would mean whatever the user's scope calls so (`struct bool;`).  Method and field names after
+    `.`, the names a trait impl must define (`fn eq`, `type Output`), associated-type bindings (`Output = ..`), and the
+    generic parameter `T` that the nested function `__assert_eq` declares for itself are the only other places. *)
+Definition keywords : list string :=
+  ["impl"; "for"; "where"; "fn"; "match"; "let"; "mut"; "return"; "type"; "const"; "as"; "self"; "Self"; "true"; "false"; "_"; "dyn";
+   "automatically_derived"; "allow"; "clippy"; "double_parens"; "unused_parens"].
+Definition scoped (s : string) : bool := str_mem s allowed && negb (str_mem s keywords).
+Definition is_p (p : string) (t : option tok) : bool :=
+  match t with Some (TP x) => String.eqb x p | _ => false end.
+Definition is_i (p : string) (t : option tok) : bool :=
+  match t with Some (TI x) => String.eqb x p | _ => false end.
+Fixpoint rel_scan (p2 p1 : option tok) (l : toks) : bool :=
+  match l with
+  | [] => true
+  | t :: rest =>
+      (match t with
+       | TI s =>
+           if scoped s then
+             is_p "::" p1 || is_p "." p1 || is_i "fn" p1 || is_i "type" p1
+             || ((is_p "," p1 || is_p "<" p1) && match rest with TP "=" :: _ => true | _ => false end)
+             || (String.eqb s "T" && (is_p "<" p1 && is_i "__assert_eq" p2 || is_p "&" p1 && is_p ":" p2))
+           else true
+       | _ => true
+       end) && rel_scan p1 (Some t) rest
+  end.
+Definition rel_ok (l : toks) : bool := rel_scan None None l.
+
+Definition relative_name_audit : bool :=
+  forallb (fun '(k, b) =>
+             forallb (fun form =>
+                        let h := sk_hdr k true (Some true) true form in
+                        rel_ok (r_hdr h ++ tbrace (r_body h b)) &&
+                        match r_eq_checker h b with Some c => rel_ok c | None => true end) sk_forms) sk_bodies
+  && forallb (fun o => let '(h, b) := r_op_ir o in rel_ok (h ++ tbrace b))
+       (flat_map (fun op =>
+          flat_map (fun x => flat_map (fun y =>
+            [OpBin {| g_params := []; g_where := [] |} op (ident_ty "U") (ident_ty "U") (ident_ty "U") x y (negb x) (negb y);
+             OpAssignFromBin {| g_params := []; g_where := [] |} op (ident_ty "U") (ident_ty "U") x;
+             OpBinFromAssign {| g_params := []; g_where := [] |} op (ident_ty "U") (ident_ty "U")]) bools) bools) binops).
+
+Example C13_relative_name_audit : relative_name_audit = true.
+Proof. vm_compute. reflexivity. Qed.
+
+(** the audit is not vacuous: it refuses the signatures the generator used before fix 2 of round 12
+    (`-> bool`, `-> usize` written on their own) *)
+Example C13_relative_name_audit_refuses_bare_primitives :
+  rel_ok (q "fn eq ( & self , __other : & Self ) -> bool") = false /\
+  rel_ok (q "let __to_index = | __this : & Self | -> usize") = false /\
+  rel_ok (q "fn eq ( & self , __other : & Self ) -> :: core :: primitive :: bool") = true.
+Proof. vm_compute. repeat split; reflexivity. Qed.
+
 Print Assumptions C13_binders_reserved.
 Print Assumptions C13_template_audit.
+Print Assumptions C13_relative_name_audit.
 Print Assumptions C13_templates_closed.
 Print Assumptions C13_operator_templates_closed.
 Print Assumptions C13_no_foreign_token.
